@@ -5,6 +5,17 @@ CLAIMED = {
             'code by running both on generated trees/texts on every run; property re-checked directly on the implementation.',
             'Trusted: Coq kernel, extraction (ExtrOcamlBasic), OCaml driver, python generators/differ; writers are modelled structurally '
             '(the explicit-stack loops are tied by correspondence only).', 'DESIGN.md section 4, C07'),
+    'C11': ('Coq proof that the explicit-stack substitute refines a structural specification (fuel bound, token exactness, identity of untouched subtrees) + extracted-model correspondence',
+            'Theorems about Gallina models of nodes.substitute (stack machine and structural), apply_simp and introduce_variables; tied to the code by running '
+            'model and implementation on generated forests/replacement maps; the property is re-checked directly on the implementation with an independent token-level oracle.',
+            'Trusted: Coq kernel, extraction, OCaml driver, python generators/differ. Hypotheses: identity keys designate non-nested nodes of an input with distinct identities.', 'DESIGN.md section 4, C11'),
+    'C12': ('Coq proof that node equality/hash/pickle/deepcopy/traversals agree with structure for arbitrary hash functions + extracted-model correspondence (in-process and fork pool)',
+            'Theorems over all trees and all hash functions about Gallina models of Node.__eq__ (two-stack machine and structural), pickling records, deepcopy, dfs/bfs/counts; '
+            'tied to the code by correspondence on generated pairs (incl. a constant-hash world that forces the structural walk) and through a fork-based pool.',
+            'Trusted: Coq kernel, extraction, OCaml driver, python harness. Pickling is modelled at record level (struct packing/UTF-8 not modelled, exercised on the implementation).', 'DESIGN.md section 4, C12'),
+    'C13': ('Coq proof that reduplicate preserves shapes, yields pairwise distinct identities and is the identity on trees + extracted-model correspondence on DAGs',
+            'Theorems about a Gallina model of nodes.reduplicate over all lists with arbitrary sharing; tied to the code by correspondence on generated DAGs (shared leaves, subtrees, empty lists).',
+            'Trusted: Coq kernel, extraction, OCaml driver, python harness. Assumes all identities of the input are <= the allocator counter.', 'DESIGN.md section 4, C13'),
 }
 ALL = ['C%02d' % i for i in range(1, 19)]
 NOT_APPLICABLE = {p: PARTIAL for p in ALL if p not in CLAIMED}
